@@ -73,6 +73,9 @@ func genC17(seed int64, tier string) *Scenario {
 			op.Ops = append(op.Ops, Op{Kind: "deploy", Service: "web", Hosts: []string{"taken.test"}, Targets: newTargets(fmt.Sprintf("g%d-", gen), 1, pick(rng, 0, 2)), DeployTimeout: deployT, DrainTimeout: drainT, Delay: d})
 		case 4: // rollout deploy
 			op.Ops = append(op.Ops, Op{Kind: "rollout_deploy", Service: "web", Targets: newTargets(fmt.Sprintf("r%d-", gen), 1, pick(rng, 0, 1, 2)), DeployTimeout: deployT, DrainTimeout: drainT, Delay: d})
+			if rng.Intn(2) == 0 {
+				op.Ops = append(op.Ops, Op{Kind: "rollout_set", Service: "web", Percent: 100, Delay: 20 * time.Millisecond})
+			}
 		case 5:
 			if !paused {
 				op.Ops = append(op.Ops, Op{Kind: pick(rng, "pause", "stop"), Service: "web", DrainTimeout: drainT, PauseTimeout: time.Duration(300+rng.Intn(2000)) * time.Millisecond, Delay: d})
@@ -104,6 +107,9 @@ func genC17(seed int64, tier string) *Scenario {
 			o := Op{Kind: "request", Path: "/x", Delay: time.Duration(rng.Intn(1200)) * time.Millisecond}
 			if rng.Intn(3) == 0 {
 				alignOp(rng, &o, []string{"deploy.probing", "deploy.healthy", "router.install", "cmd.found", "op.pause", "op.stop", "op.deploy"}, 4)
+			}
+			if rng.Intn(2) == 0 {
+				o.Cookie = "kamal-rollout=u" + fmt.Sprint(rng.Intn(4))
 			}
 			switch rng.Intn(6) {
 			case 0:
@@ -147,8 +153,12 @@ func checkC17(r *RunResult) []Violation {
 	current := map[string][]string{} // service/slot -> targets in force (model)
 	for _, c := range w.Cmds {
 		if c.Ret == 0 {
-			if r.Budget != "" {
-				continue // the run was cut by its step budget: inconclusive for this command
+			lim := c.Op.DeployTimeout + c.Op.DrainTimeout
+			if c.Op.Kind != "deploy" && c.Op.Kind != "rollout_deploy" {
+				lim = c.Op.DrainTimeout
+			}
+			if r.Virtual < c.CallT+lim+z+time.Second {
+				continue // the run was cut before the command's bound: inconclusive
 			}
 			out = append(out, Violation{Prop: "C17", Clause: "command-never-returned", Msg: fmt.Sprintf("%s %s called at #%d (t=%v) had not returned when the run ended at t=%v", c.Op.Kind, c.Op.Service, c.Call, c.CallT, r.Virtual)})
 			continue
